@@ -381,9 +381,58 @@ def run_union(run):
         for b in (b"", b"\x00", b"\x00\x00\x00", b"\x00\x00\x00\x00", b"\x01\x00\x00\x00", b"\xff\xff\xff\xff", b"\x00\x00\x00\x01\x31", b"\x00\x01\x00\x00\x31"):
             cases.append("unlyb %s %s" % (u, hexs(b)))
     run.diff(cases)
+    routes_union(run, unions, lex_of, accepted)
     cx.rule("val: union LYB decode: for every member index (including members a text value never selects because an earlier member accepts it, and two indices "
             "beyond the array) the member's own LYB values, with and without a trailing byte; sizes 0..4, index 2^32-1, big-endian index")
     return unions
+
+
+def routes_union(run, unions, lex_of, accepted):
+    """the same lexical value through XML, JSON string, JSON literal, lyd_new_term, lyd_value_validate, a default statement and a path predicate:
+    every route must give the verdict and canonical value of the union's store callback under that route's hints (the member that wins may differ
+    between routes: a JSON number is offered to the members with the number hints, a default statement in base 0)"""
+    from checks import valcomp
+    from vlib import gen
+    cx = run.cx
+    rng = cx.sub_rng("union-routes")
+    sel = []
+    for u in unions[:cx.n(16, 120)]:
+        acc = set(accepted.get(u, []))
+        pool = [s for s in lex_of[u] if b"\x00" not in s and len(s) < 40]
+        a = [s for s in pool if s in acc]
+        r = [s for s in pool if s not in acc]
+        rng.shuffle(a); rng.shuffle(r)
+        k = cx.n(5, 30) if u in FIXED_UNIONS else cx.n(2, 10)
+        sel += [(u, s) for s in a[:k] + r[:max(1, k // 2)]]
+    cases, masks = [], {}
+    for u, s in sel:
+        mask = 8 | 16
+        carrier = gen.is_yang_text(s)
+        if valcomp.xml_plain(s) and carrier: mask |= 1
+        if carrier: mask |= 2
+        if valcomp.JSON_INT.match(s) or s in (b"true", b"false"): mask |= 4
+        if all(0x20 <= c < 0x7f for c in s) and s.strip(b" ") == s and cx.dist["val:route:union-default-run"] < cx.n(40, 600):
+            mask |= 32
+            cx.dist["val:route:union-default-run"] += 1
+        if not (b"'" in s and b'"' in s): mask |= 64
+        masks[(u, s)] = mask
+        cases.append("routes %s %d %s" % (u, mask, hx(s)))
+    run.impl_only(cases, count_kind="val:routes:union")
+    run.diff(["store %s %d %s" % (u, valcomp.route_hints(ro, "U", s), hx(s)) for u, s in sel for ro in valcomp.ROUTES])
+    for u, s in sel:
+        r = run.get("routes %s %d %s" % (u, masks[(u, s)], hx(s)))
+        if r[0] != "ok":
+            continue
+        got = dict(zip(valcomp.ROUTES, r[1:]))
+        for ro in valcomp.ROUTES:
+            if got[ro] == "N":
+                continue
+            st = run.get("store %s %d %s" % (u, valcomp.route_hints(ro, "U", s), hx(s)))
+            want = st[1] if st[0] == "ok" else "R"
+            cx.count(("route-union", u, s, ro), True, "val:route:union:%s:%s" % (ro, "accept" if got[ro] != "R" else "reject"))
+            if got[ro] != want:
+                cx.fail("val", "route %s does not give the verdict of the union's value store under that route's hints" % ro,
+                        {"type": u, "value_hex": hx(s), "route": ro, "got": got[ro], "store_under_route_hints": want, "all": got, "law": "route_is_store"})
 
 
 def run_pstr(run):
